@@ -910,6 +910,229 @@ def line_reader_correspondence(ctx, exe):
 
 
 # ---------------------------------------------------------------------------------------------------------------
+# classified-reader correspondence (CSV / CSV-lite / PPRINT / XTAB models in coq/C18/ModelReaders.v)
+# ---------------------------------------------------------------------------------------------------------------
+CLS_NAMES = {0: "ok", 1: "err-invalid-delimiter", 2: "err-bare-quote", 3: "err-bad-quote", 4: "err-length-mismatch", 5: "err-xtab-internal"}
+
+
+def _b(x):
+    return "true" if x else "false"
+
+
+def cr_optsets(fmt):
+    """(name, mlr flags, Coq reader term) for the modelled options of each format"""
+    out = []
+    if fmt == "csv":
+        for implicit in (False, True):
+            for lazy in (False, True):
+                for dedupe in (True, False):
+                    for ragged in (False, True):
+                        for comma in (b",", b";", b'"'):
+                            if comma != b"," and (implicit or not dedupe):
+                                continue
+                            flags = ["--icsv"] + (["--implicit-csv-header"] if implicit else []) + (["--lazy-quotes"] if lazy else []) + \
+                                (["--no-dedupe-field-names"] if not dedupe else []) + (["--allow-ragged-csv-input"] if ragged else []) + \
+                                (["--ifs", comma.decode()] if comma != b"," else [])
+                            term = "(RCsv (mkO %s %s %s %s false (ascii_of_N %d%%N)))" % (_b(implicit), _b(lazy), _b(dedupe), _b(ragged), comma[0])
+                            name = "+".join(n for n, v in (("implicit", implicit), ("lazy", lazy), ("no-dedupe", not dedupe), ("ragged", ragged), ("ifs" + comma.decode(), comma != b",")) if v) or "default"
+                            out.append((name, flags, term, comma))
+    elif fmt == "csvlite":
+        for ragged in (False, True):
+            for dedupe in (True, False):
+                for ifs, repifs in ((b",", False), (b";;", False), (b",", True)):
+                    flags = ["--icsvlite"] + (["--allow-ragged-csv-input"] if ragged else []) + (["--no-dedupe-field-names"] if not dedupe else []) + \
+                        (["--ifs", ifs.decode()] if ifs != b"," else []) + (["--repifs"] if repifs else [])
+                    term = "(RLite (mkL %s %s None %s %s))" % (coq_bytes(ifs), _b(repifs), _b(dedupe), _b(ragged))
+                    name = "+".join(n for n, v in (("ragged", ragged), ("no-dedupe", not dedupe), ("ifs" + ifs.decode(), ifs != b","), ("repifs", repifs)) if v) or "default"
+                    out.append((name, flags, term, ifs))
+    elif fmt == "pprint":
+        for ragged in (False, True):
+            for dedupe in (True, False):
+                flags = ["--ipprint"] + (["--allow-ragged-csv-input"] if ragged else []) + (["--no-dedupe-field-names"] if not dedupe else [])
+                term = "(RLite (pprint_opts %s %s))" % (_b(dedupe), _b(ragged))
+                out.append(("+".join(n for n, v in (("ragged", ragged), ("no-dedupe", not dedupe)) if v) or "default", flags, term, b" "))
+    elif fmt == "xtab":
+        for dedupe in (True, False):
+            for ips in (b" ", b":", b": "):
+                flags = ["--ixtab"] + (["--no-dedupe-field-names"] if not dedupe else []) + (["--ips", ips.decode()] if ips != b" " else [])
+                term = "(RXtab %s %s)" % (coq_bytes(ips), _b(dedupe))
+                out.append(("+".join(n for n, v in (("no-dedupe", not dedupe), ("ips" + ips.decode().replace(" ", "_"), ips != b" ")) if v) or "default", flags, term, ips))
+    return out
+
+
+def cr_parse_error(fmt, stderr):
+    """observed error class as (python tuple, Coq term) or None when the message is not one of the modelled classes"""
+    m = re.search(rb"CSV header/data length mismatch (\d+) != (\d+) at filename \S+ (row|line) (\d+)", stderr)
+    if m and (m.group(3) == b"row") == (fmt == "csv"):
+        t = (int(m.group(1)), int(m.group(2)), int(m.group(4)))
+        return ("err-length-mismatch",) + t, "(Some (EMismatch %d%%N %d%%N %d%%N))" % t
+    if b'bare " in non-quoted-field' in stderr:
+        return ("err-bare-quote",), "(Some (EParse BareQuote))"
+    if b'extraneous or missing " in quoted-field' in stderr:
+        return ("err-bad-quote",), "(Some (EParse BadQuote))"
+    if b"invalid field or comment delimiter" in stderr:
+        return ("err-invalid-delimiter",), "(Some EDelim)"
+    return None
+
+
+def cr_observe(exe, items):
+    """items: list of (fmt, flags, term, doc) -> list of (item, records|None, err tuple|None, coq term|None, raw)"""
+    reqs = [{"id": i, "args": ["-S"] + flags + ["put", "-q", DUMP], "stdin": d} for i, (fmt, flags, term, d) in enumerate(items)]
+    groups = [reqs[i::max(1, NJOBS)] for i in range(max(1, NJOBS))]
+    res = inproc_many(exe, [g for g in groups if g])
+    out = []
+    for i, it in enumerate(items):
+        fmt, flags, term, d = it
+        o = res.get(i)
+        if not o or o["class"] not in ("ok", "exit") or o["out_len"] > 4000:
+            out.append((it, None, None, None, o))
+            continue
+        recs, okparse = [], True
+        for line in o["out"].decode("latin1").splitlines():
+            if not line.startswith("R"):
+                okparse = False
+                break
+            rec = []
+            for kv in line[1:].split():
+                k, _, v = kv.partition(":")
+                try:
+                    rec.append((bytes.fromhex(k), bytes.fromhex(v)))
+                except ValueError:
+                    okparse = False
+            recs.append(rec)
+        if not okparse:
+            out.append((it, None, None, None, o))
+            continue
+        if o["class"] == "exit":
+            pe = cr_parse_error(fmt, o["stderr"])
+            if pe is None:
+                out.append((it, recs, ("err-unrecognised", o["stderr"][:200].decode("latin1")), None, o))
+                continue
+            out.append((it, recs, pe[0], "(%s, %s, %s, %s)" % (term, coq_bytes(d), "[]", pe[1]), o))
+        else:
+            out.append((it, recs, None, "(%s, %s, %s, None)" % (term, coq_bytes(d), coq_records(recs)), o))
+    return out
+
+
+CR_TY = "rdr * bytes * list record * option cerr"
+CR_IMPORTS = "Base.Record C01.Model C18.ModelReaders C18.Harness"
+
+
+def cr_shrink(ctx, exe, fmt, flags, term, doc, rounds=3):
+    """batch delta debugging of a model/implementation disagreement: every round evaluates all single-chunk removals
+    (implementation in-process, model in ONE coqc run) and keeps the smallest input on which they still disagree"""
+    cur = doc
+    for _ in range(rounds):
+        n = len(cur)
+        if n <= 1:
+            break
+        chunk = max(1, n // 12)
+        cands = sorted({cur[:i] + cur[i + chunk:] for i in range(0, n, chunk)} | {cur[:i] for i in range(1, n, max(1, n // 8))}, key=len)
+        cands = [c for c in cands if c != cur and b"\x00" not in c][:40]
+        obs = cr_observe(exe, [(fmt, flags, term, c) for c in cands])
+        terms = [(o[0][3], o[3]) for o in obs if o[3] is not None]
+        if not terms:
+            break
+        bad, cerr = coq_eval_mismatches(ctx, "C18_shrink", CR_IMPORTS, CR_TY, "chk2", [t for _, t in terms])
+        bad = [i for i in bad if 0 <= i < len(terms)]
+        if cerr or not bad:
+            break
+        cur = min((terms[i][0] for i in bad), key=len)
+    return cur
+
+
+def classified_reader_correspondence(ctx, exe):
+    rng = ctx.rng
+    n = 110 if ctx.tier == "quick" else 2500
+    alpha = {"csv": b'ab,"\n\r1 ;', "csvlite": b'ab,;\n\r1 "', "pprint": b"ab -\n\r1|", "xtab": b"ab :\n\r1"}
+    extra = {
+        "csv": [b'a,b\n1,x"y\n3,4\n', b'a,b\n1,"x"y\n3,4\n', b'a,b\n1,"xy\n3,4\n', b'a,b\n1,2,x"y\n3,4\n', b'a,b\nx"y,2\n', b'a,b\n"x"y,2\n', b'a,b\n"xy', b'a,b\n1,2\n\n',
+                b'a,b\n1,2\n\r', b"\r", b"a,b\r\n1,2\r\n", b"a,b\r1,2\r", b'a,b\n"1\r\n2",3\n', b'a,b\n1,2\r', b'"a",\n1,2\n', b'a,a\n1,2\n', b'a,a,a_2\n1,2,3\n',
+                b'a,b\n1\n', b'a,b\n1,2,3\n', b'\n1,2\n', b'a\n\n\n', b'a,b\n"",""\n', b'a,b\n1,"2""3"\n', b'a,b\n1,"2"",3\n', b'a;b\n1;2\n', b'a,b\n1,2\n"', b'",",b\n1,2\n',
+                b'\xef\xbb\xbfa,b\n1,2\n', b'\xef\xbb\xbf"a",b\n1,2\n', b'a,b\n1,2\n3\n4,5\n', b'a,b\n,\n', b'a,b\n1,"\n\n"\n', b'a,b\n1,2"\n', b'a,b\n1,""x\n'],
+        "csvlite": [b"a,b\n1,2\n\nc\n3\n", b"a,b\n1\n", b"a,b\n\n1\n", b"a,b\n1,2\n\n\n3,4\n5,6,7\n", b"a,a\n1,2\n", b"a;;b\n1;;2\n", b"a,,b\n1,,2\n", b",\n,\n", b"\xef\xbb\xbfa\n1\n",
+                    b"a,b\n1,2,3\n", b"a,b,c\n1,2\n", b"a\n\na,b\n1\n"],
+        "pprint": [b"a b\n1 -\n", b"a   b\n- -\n\nc\n-\n", b"a b\n1\n", b"a b\n1 2 3\n", b"  a  b  \n 1 2\n", b" \n", b"a\n \n", b"a a\n1 2\n", b"a - b\n1 2 3\n"],
+        "xtab": [b"a 1\nb 2\n", b"a    1\n\n\nb\n", b"a\n", b" a 1\n", b"  \n", b"a 1\na 2\na_2 3\n", b"a:1\nb::2\n", b"a: 1\nb:  : 2\n", b"\n\na 1", b"a 1\r\nb 2\r\n\r\nc 3\r\n"],
+    }
+    items, meta = [], []
+    for fmt in ("csv", "csvlite", "pprint", "xtab"):
+        osets = cr_optsets(fmt)
+        docs = list(SEEDS[fmt]) + extra[fmt] + [b"", b"\n", b"\r\n", b"a", b"\n\n"]
+        for s in SEEDS[fmt][:3]:
+            docs += [s[:i] for i in range(1, len(s), 1 if ctx.tier == "thorough" else 2)]
+        for _ in range(n):
+            if rng.random() < 0.5:
+                docs.append(bytes(rng.choice(alpha[fmt]) for _ in range(rng.randint(0, 18))))
+            else:
+                docs.append(mutate(rng, rng.choice(SEEDS[fmt] + extra[fmt]), FMT_SEP[fmt])[1][:300])
+        seen = set()
+        for j, d in enumerate(docs):
+            if b"\x00" in d:
+                continue
+            # the hand-written documents meet every option set, the generated ones a random one
+            for (oname, flags, term, sep) in (osets if d in extra[fmt] and ctx.tier == "thorough" else [osets[0], rng.choice(osets)] if j < len(SEEDS[fmt]) + len(extra[fmt]) else [rng.choice(osets)]):
+                dd = d
+                if sep not in (b",", b" ") and rng.random() < 0.7:
+                    dd = d.replace(FMT_SEP[fmt], sep)      # make the alternative separator occur
+                if (oname, dd) in seen:
+                    continue
+                seen.add((oname, dd))
+                items.append((fmt, flags, term, dd))
+                meta.append(oname)
+    with ctx.timed("classified_reader_inproc"):
+        obs = cr_observe(exe, items)
+    terms, tmeta, tally, unrec = [], [], {}, []
+    for (it, recs, err, term, raw), oname in zip(obs, meta):
+        fmt = it[0]
+        if term is None:
+            if err and err[0] == "err-unrecognised":
+                unrec.append((it, err))
+            continue
+        cls = err[0] if err else "ok"
+        tally.setdefault(fmt, {}).setdefault(cls, 0)
+        tally[fmt][cls] += 1
+        terms.append(term)
+        tmeta.append((it, recs, err, oname))
+        ctx.count(("classified-reader", fmt, oname, it[3])); ctx.dist("classified-reader:" + fmt); ctx.dist("classified-reader-outcome:" + cls)
+    with ctx.timed("coq_cases_classified"):
+        bad, cerr = coq_eval_mismatches(ctx, "C18_cr", CR_IMPORTS, CR_TY, "chk2", terms)
+    ctx.cov["classified_reader_correspondence"] = {"cases": len(terms), "mismatches": len(bad), "per_format_and_outcome": tally,
+                                                   "option_sets": {f: len(cr_optsets(f)) for f in ("csv", "csvlite", "pprint", "xtab")},
+                                                   "unrecognised_error_messages": len(unrec)}
+    if cerr:
+        ctx.violation({"broken": "correspondence-evaluation (classified readers)", "detail": cerr[-2000:]}, found_input=False)
+        return
+    for it, err in unrec[:3]:
+        ctx.violation({"broken": "classified-reader correspondence: the implementation reports an error outside the modelled classes", "format": it[0], "args": it[1],
+                       "stdin_hex": it[3].hex(), "observed_error": err[1]}, found_input=False)
+    per_fmt = {}
+    for i in sorted((j for j in bad if j >= 0), key=lambda j: len(tmeta[j][0][3])):
+        (fmt, flags, term, d), recs, err, oname = tmeta[i]
+        if per_fmt.get(fmt, 0) >= 2:
+            continue
+        per_fmt[fmt] = per_fmt.get(fmt, 0) + 1
+        # is the disagreement a panic / hang of the real binary on this or a neighbouring input?
+        st, out, e2 = run_cli(ctx, flags + ["--ojson", "cat"], d, timeout=25)
+        k = c18_classify(st, e2)
+        if k not in ("ok", "mlr_error"):
+            ctx.violation({"class": reader_class({"fmt": fmt}, k, e2), "part": "reader", "broken": "correspondence C18.Harness.chk2", "args": flags + ["--ojson", "cat"],
+                           "input": "mlr %s --ojson cat < stdin" % " ".join(flags), "stdin_hex": d.hex(), "observed": "%s exit=%s %s" % (k, st, e2.decode("utf-8", "replace")[:400]),
+                           "expected": "records or an `mlr:` error with non-zero exit"})
+            continue
+        small = cr_shrink(ctx, exe, fmt, flags, term, d)
+        o2 = cr_observe(exe, [(fmt, flags, term, small)])[0]
+        ctx.violation({"broken": "correspondence C18.Harness.chk2 (classified reader model vs implementation)", "class": "reader-model-disagreement-%s" % fmt, "part": "reader-model",
+                       "format": fmt, "options": oname, "args": flags, "stdin_hex": small.hex(), "stdin": small.decode("latin1"),
+                       "stdin_hex_before_shrinking": d.hex() if small != d else None, "coq_reader": term,
+                       "observed_records": [[(k.decode("latin1"), v.decode("latin1")) for k, v in r] for r in (o2[1] or [])], "observed_error": list(o2[2]) if o2[2] else None,
+                       "expected": "the outcome (records, or error class with its numbers) computed by read_*_c under vm_compute"}, found_input=False)
+    if tmeta:
+        (fmt, flags, term, d), recs, err, oname = tmeta[len(tmeta) // 3]
+        ctx.sample({"format": fmt, "options": oname, "stdin": d.decode("latin1"), "records": len(recs or []), "error": list(err) if err else None})
+
+
+# ---------------------------------------------------------------------------------------------------------------
 # part 3: DSL text mutations
 # ---------------------------------------------------------------------------------------------------------------
 TOKEN_RE = re.compile(r'"(?:[^"\\]|\\.)*"|[A-Za-z_$@][A-Za-z_0-9]*|\d+\.?\d*(?:[eE][-+]?\d+)?|0x[0-9a-fA-F]+|\*\*=?|//=?|\.\+|\.\*|\./|\.-|<<=?|>>>?=?|&&=?|\|\|=?|\^\^=?|\?\?\??=?|=~|!=~|[<>!=]=|<=>|[-+*/%.&|^]=|\S')
@@ -1060,20 +1283,186 @@ def dsl_class(p, k, err):
 
 
 # ---------------------------------------------------------------------------------------------------------------
+# part 4: stress -- deep nesting, long tokens, junk bytes, recursion (DSL front end and the JSON / flatten machinery)
+# ---------------------------------------------------------------------------------------------------------------
+def stress_cases(ctx):
+    """(family, kind, args, stdin, program-or-None, expect_nontermination).  kind 'dsl' runs `mlr -n put -f <file>`.
+    The generated LR parser and the recursive CST builder/evaluator, json decoder and flatten/unflatten recurse on the nesting
+    depth: a Go stack overflow ("goroutine stack exceeds") would be a fatal error, i.e. a violation.  Depths: linear-cost
+    families go to 2*10^3 (quick) / 10^5 (thorough); families whose cost is quadratic in the depth on this tree (nested map/array
+    literals, nested JSON objects, UDF recursion: observed, finite) stay at depths that finish in seconds."""
+    rng = ctx.rng
+    T = ctx.tier == "thorough"
+    N = 100000 if T else 2000          # linear families
+    Q = 4000 if T else 300             # quadratic families
+    cases = []
+    dsl = lambda fam, p, nonterm=False: cases.append((fam, "dsl", None, b"", p, nonterm))
+    dsl("deep-parens", "end{print " + "(" * N + "1" + ")" * N + "}")
+    dsl("deep-unary-minus", "end{print " + "-" * N + "1}")
+    dsl("deep-unary-not", "end{print " + "!" * N + "true}")
+    dsl("long-binop-chain", "end{print 1" + "+1" * N + "}")
+    dsl("long-dot-chain", "end{print 1" + " . 1" * N + "}")
+    dsl("long-logical-chain", "end{print true" + " && true" * N + "}")
+    dsl("deep-index", "end{x=[1];print x" + "[1]" * N + "}")
+    dsl("deep-calls", "end{print " + "strlen(" * N + "1" + ")" * N + "}")
+    dsl("deep-ternary", "end{print " + "true?1:" * N + "2}")
+    dsl("deep-blocks", "end{" + "if(true){" * N + "print 1" + "}" * N + "}")
+    dsl("deep-while-blocks", "end{" + "while(false){" * (N // 10) + "print 1" + "}" * (N // 10) + "}")
+    dsl("long-statement-list", "end{" + "x=1;" * N + "print x}")
+    dsl("deep-array-literal", "end{x=" + "[" * Q + "1" + "]" * Q + ";print depth(x)}")
+    dsl("deep-map-literal", "end{x=" + '{"a":' * Q + "1" + "}" * Q + ";print depth(x)}")
+    dsl("deep-unbalanced-open", "end{print " + "(" * N + "1}")
+    dsl("deep-unbalanced-brackets", "end{print " + "[" * N)
+    dsl("deep-unbalanced-braces", "end{" + "{" * N)
+    dsl("deep-unbalanced-close", "end{print 1" + ")" * N + "}")
+    dsl("long-identifier", "end{" + "x" * (10 * N) + "=1;print " + "x" * (10 * N) + "}")
+    dsl("long-field-name", "$" + "y" * (10 * N) + "=1")
+    dsl("long-int-literal", "end{print " + "9" * (10 * N) + "}")
+    dsl("long-float-literal", "end{print 1." + "9" * (10 * N) + "e" + "9" * 400 + "}")
+    dsl("long-string-literal", 'end{print strlen("' + "s" * (100 * N) + '")}')
+    dsl("long-comment", "end{print 1} #" + "c" * (100 * N))
+    dsl("unterminated-string", 'end{print "abc')
+    dsl("unterminated-string-backslash", 'end{print "abc\\')
+    dsl("unterminated-braced-field", "end{print ${abc")
+    dsl("unterminated-block", "end{print 1")
+    dsl("nul-bytes", "end{print 1\x00 + 2}")
+    dsl("nul-in-string", 'end{print "a\x00b"}')
+    dsl("only-nul", "\x00" * 100)
+    for j in range(4 if not T else 60):
+        dsl("random-bytes", bytes(rng.randrange(256) for _ in range(rng.randint(1, 300))).decode("latin1"))
+        dsl("random-ascii-junk", "".join(rng.choice("(){}[];,=$@\"'\\#.+-*/%<>!&|^~?: \n\tabfunc019e") for _ in range(rng.randint(1, 200))))
+    dsl("invalid-utf8-string", b'end{print "\xff\xfe\xc3(\xe2\x82" . "x"; print strlen("\xc3"); print toupper("\xf0\x9f"); print format_values("\xff")}'.decode("latin1"))
+    dsl("invalid-utf8-field-name", b'$\xff\xfe = 1; ${a\xffb} = 2; @\xc3 = 3; $*["\xff"] = 4'.decode("latin1"))
+    dsl("invalid-utf8-identifier", b'end{\xff\xfe = 1; func\xc3(1)}'.decode("latin1"))
+    dsl("func-redefinition", "func f(x){return 1} func f(x){return 2} end{print f(1)}")
+    dsl("func-redefines-builtin", "func strlen(x){return 1} end{print strlen(1)}")
+    dsl("func-inside-func", "func f(x){ func g(y){return 1} return 2} end{print f(1)}")
+    dsl("subr-redefinition", "subr s(x){print 1} subr s(x){print 2} end{call s(1)}")
+    dsl("func-wrong-arity-call", "func f(x){return 1} end{print f(1,2)}")
+    dsl("func-no-return", "func f(x){ } end{print f(1)}")
+    dsl("funct-literal-wrong-arity", "end{print apply([1,2], func(a,b,c){return 1}); print sort([1,2], func(a){return 1}); print fold([1,2], func(a){return 1}, 0); print reduce([], func(){return 1})}")
+    # collections with nested kinds (array containing map containing empty map / empty array / empty string), function literals of
+    # the wrong arity handed to the higher-order functions, variadic functions with 4 and 5 arguments, through the real binary
+    X = 'x=[{"a":{"b":[{},[],"",{}]}}, {}, [], [[],[{}]]];'
+    dsl("nested-kinds-collections", "end{" + X + 'print flatten({"a":x},":"); print unflatten({"a.b":x},"."); print arrayify({"1":{"1":x}}); print depth(x); print leafcount(x); '
+        'print get_keys(x); print get_values(x); print mapdiff({"a":x},{"a":{}}); print mapsum({"a":x},{}); print sort(x); print concat(x,[],{}); print append(x,{}); '
+        'print haskey(x,-1); print x[1]["a"]["b"][2]; print asserting_not_null(x); print typeof(x[2]); print is_empty_map(x[2]); print length(x); print x[2:3]; '
+        'print json_parse(json_stringify(x)); print json_stringify(x, "multiline"); print sort_collection(x)}')
+    dsl("nested-kinds-hofs", "end{" + X + 'print apply(x, func(e){return e}); print select(x, func(e){return is_map(e)}); print reduce(x, func(acc,e){return acc}); '
+        'print fold(x, func(acc,e){return acc}, {}); print any(x, func(e){return is_empty_map(e)}); print every(x, func(e){return is_map(e)}); print sort(x, func(a,b){return 0}); '
+        'print apply({}, func(k,v){return {k:v}}); print select({}, func(k,v){return true}); print reduce([], func(acc,e){return acc}); print fold({}, func(acck,accv,ek,ev){return {ek:ev}}, {"a":x})}')
+    dsl("variadic-4-5-args", "end{" + X + 'print format("{}:{}:{}:{}",x,{},[],""); print min(x,{},[],1,""); print max(x,{},[],1,""); print mapsum({},{},{},{"a":x}); print mapdiff({"a":x},{},{},{}); '
+        'print strfntime_local(1,"%Y","Asia/Tokyo"); print splitax("a,b",","); print percentiles([1,2,3],[25,75],{"interpolate_linearly":true,"output_array_not_map":true}); '
+        'print percentiles(x,[50]); print unformat("{}:{}","1:2"); print strptime("2023","%Y"); print exec("/bin/true",[],{}); print system("true")}')
+    for nm, ex in (("apply", "apply([1,2], func(a,b,c){return 1})"), ("sort", "sort([1,2], func(a){return 1})"), ("fold", "fold([1,2], func(a){return 1}, 0)"),
+                   ("reduce", "reduce([1], func(){return 1})"), ("select-map", "select({\"a\":1}, func(e){return true})"), ("any", "any([1], func(a,b){return true})")):
+        dsl("hof-wrong-arity-" + nm, "end{print " + ex.replace('\\"', '"') + "}")
+    dsl("absent-in-array-literal", "end{print [1,@nosuch]}")
+    dsl("absent-in-map-literal", 'end{print {"a":@nosuch, "b":$nosuch}}')
+    R = 20000 if T else 1000
+    dsl("bounded-recursion", "func f(n) { if (n<=0) {return 0} return 1+f(n-1) } end{print f(%d)}" % R)
+    dsl("bounded-mutual-recursion", "func f(n) { if (n<=0) {return 0} return 1+g(n-1) } func g(n) { return f(n) } end{print f(%d)}" % R)
+    dsl("bounded-subr-recursion", "subr s(n) { if (n>0) {call s(n-1)} } end{call s(%d); print 1}" % R)
+    # a program that does not terminate is the USER's: expected outcome is the wall-clock cap; a Go fatal error
+    # (stack exceeds 1 GB, out of memory within the cap) would be a violation
+    dsl("unbounded-recursion", "func f(x) { return f(x) } end{print f(1)}", True)
+    dsl("unbounded-subr-recursion", "subr s(x) { call s(x) } end{call s(1)}", True)
+    inp = lambda fam, args, data: cases.append((fam, "input", args, data, None, False))
+    inp("json-open-brackets", ["--ijson", "--ojson", "cat"], b"[" * (10 * N))
+    inp("json-open-braces", ["--ijson", "--ojson", "cat"], b'{"a":' * (10 * N))
+    inp("json-deep-arrays", ["--ijson", "--ojsonl", "cat"], b'{"a":' + b"[" * N + b"1" + b"]" * N + b"}")
+    inp("json-deep-arrays-flatten", ["--ijson", "--ocsv", "cat"], b'{"a":' + b"[" * Q + b"1" + b"]" * Q + b"}")
+    inp("json-deep-objects", ["--ijson", "--ojsonl", "cat"], b'{"a":' * Q + b"1" + b"}" * Q)
+    inp("json-deep-objects-flatten", ["--ijson", "--oxtab", "cat"], b'{"a":' * Q + b"1" + b"}" * Q)
+    inp("json-deep-top-level-arrays", ["--ijson", "--ojson", "cat"], b"[" * N + b'{"a":1}' + b"]" * N)
+    inp("json-close-brackets", ["--ijson", "--ojson", "cat"], b"]" * N)
+    inp("json-long-string", ["--ijson", "--ojson", "cat"], b'{"a":"' + b"s" * (100 * N) + b'"}')
+    inp("json-long-number", ["--ijson", "--ojson", "cat"], b'{"a":' + b"9" * (10 * N) + b"}")
+    inp("json-long-key", ["--ijson", "--ojson", "cat"], b'{"' + b"k" * (10 * N) + b'":1}')
+    inp("json-bad-escapes", ["--ijson", "--ojson", "cat"], b'{"a":"\\u12","b":"\\ud800","c":"\\x","d":"\\')
+    inp("json-nul-bytes", ["--ijson", "--ojson", "cat"], b'{"a":"\x00","\x00":1}\x00')
+    inp("jsonl-deep-arrays", ["--ijsonl", "--ojsonl", "cat"], b'{"a":' + b"[" * N + b"1" + b"]" * N + b"}\n")
+    inp("csv-deep-unflatten", ["--icsv", "--ojsonl", "cat"], b".".join([b"a"] * Q) + b"\n1\n")
+    inp("csv-deep-unflatten-verb", ["--icsv", "--ocsv", "unflatten", "then", "flatten"], b".".join([b"a"] * Q) + b"\n1\n")
+    inp("yaml-deep-flow", ["--iyaml", "--ojsonl", "cat"], b"a: " + b"[" * Q + b"1" + b"]" * Q + b"\n")
+    inp("yaml-deep-block", ["--iyaml", "--ojsonl", "cat"], b"".join(b"  " * i + b"a:\n" for i in range(300)) + b"  " * 300 + b"b: 1\n")
+    inp("yaml-alias-expansion", ["--iyaml", "--ojsonl", "nothing"], b"a: &a [1,1]\nb: &b [*a,*a]\nc: &c [*b,*b]\nd: &d [*c,*c]\ne: [*d,*d]\n")
+    inp("dkvp-long-line", ["--idkvp", "--ojson", "cat"], b"a=" + b"x" * (100 * N) + b"\n")
+    inp("csv-long-quoted-field", ["--icsv", "--ojson", "cat"], b'a\n"' + b"x\n" * (10 * N) + b'"\n')
+    return cases
+
+
+def stress_part(ctx):
+    cases = stress_cases(ctx)
+    d = Path(SANDBOX["dir"])
+
+    def go(ic):
+        i, (fam, kind, args, data, prog, nonterm) = ic
+        if kind == "dsl":
+            f = d / ("stress_%d.mlr" % i)
+            f.write_bytes(prog.encode("latin1"))
+            args = ["-n", "put", "-f", str(f)]
+        to = 8 if nonterm else 90
+        if nonterm:     # one attempt only: the cap is the expected outcome
+            st, out, err = mlr_run(ctx, args, data, timeout=to, max_out=50_000_000, env=SAFE_ENV, cwd=SANDBOX["dir"])
+        else:
+            st, out, err = run_cli(ctx, args, data, timeout=to, max_out=50_000_000)
+        k = c18_classify(st, err)
+        if kind == "dsl":
+            try:
+                f.unlink()
+            except OSError:
+                pass
+        return fam, kind, args, data, prog, nonterm, k, st, err
+    with ctx.timed("stress"):
+        with cf.ThreadPoolExecutor(min(8, NJOBS + 2)) as ex:
+            results = list(ex.map(go, enumerate(cases)))
+    summary, tally, seen = {}, {}, set()
+    for fam, kind, args, data, prog, nonterm, k, st, err in results:
+        ctx.count(("stress", fam, prog if prog is not None else data)); ctx.dist("stress:" + fam)
+        kk = "capped-nonterminating-user-program" if (nonterm and k == "hang") else k
+        summary.setdefault(fam, {}).setdefault(kk, 0)
+        summary[fam][kk] += 1
+        tally[kk] = tally.get(kk, 0) + 1
+        if kk in ("ok", "mlr_error", "capped-nonterminating-user-program"):
+            continue
+        m = re.search(rb"(?:panic|fatal error): ([^\n]{0,60})", err)
+        what = re.sub(rb"[^a-z]+", b"-", (m.group(1) if m else b"").lower()).strip(b"-").decode()[:40]
+        cls = "stress-%s-%s%s" % (kk, fam, ("-" + what) if what else "")
+        if cls in seen:
+            continue
+        seen.add(cls)
+        gen = {"family": fam, "program_len": len(prog) if prog is not None else None, "stdin_len": len(data)}
+        ctx.violation({"class": cls, "part": "stress", "family": fam, "args": args if kind != "dsl" else ["-n", "put", "-f", "<program>"],
+                       "program": prog if (prog is not None and len(prog) <= 4000) else None, "program_head": prog[:200] if prog is not None else None,
+                       "stdin_hex": data.hex() if len(data) <= 4000 else None, "stdin_head_hex": data[:100].hex(), "generator": gen,
+                       "input": "stress family %s (see stress_cases in c18.py; tier %s)" % (fam, ctx.tier),
+                       "observed": "%s exit=%s %s" % (k, st, err.decode("utf-8", "replace")[:500]),
+                       "expected": "output, or an `mlr:` error with non-zero exit, in bounded time"})
+    ctx.cov["stress"] = {"cases": len(cases), "families": len(summary), "classes": tally, "per_family": summary}
+
+
+# ---------------------------------------------------------------------------------------------------------------
 def run(ctx):
     ctx.cov["rule"] = ("(1) every row of the built-in function table x every tuple of 37 argument-kind representatives for arity <= 2, and of "
                        "12 (quick) / 37 (thorough) for arity 3, invoked as the callsite nodes do, outcome table regenerated and re-proved; "
                        "(2) valid documents of 16 input formats x reader option sets x grammar-aware mutations (truncation at every byte, "
                        "nasty-token insertion, ragged lines, huge fields, CR/LF, BOM, invalid UTF-8, NUL) classified ok|mlr_error|panic|internal|hang; "
                        "directories and truncated gzip as inputs; DKVP/NIDX/TSV line-reader models compared record-for-record (hex dump through the DSL); "
-                       "(3) token-level mutations of the put/filter expressions of test/cases; a case is non-trivial when its input is distinct")
+                       "(2b) classified CSV / CSV-lite / PPRINT / XTAB reader models (coq/C18/ModelReaders.v) compared on seeds, hand-written corner documents, truncations, random "
+                       "quote/separator/CR/LF strings and grammar-aware mutants x 46 option sets: records, or error class with the numbers of the message; "
+                       "(3) token-level mutations of the put/filter expressions of test/cases; (4) stress families: nesting depth 2*10^3 (quick) / 10^5 (thorough) in every "
+                       "recursive construct of the DSL grammar, long tokens, junk / NUL / invalid UTF-8 bytes, redefinitions, bounded and unbounded recursion, deep JSON / YAML / "
+                       "flatten / unflatten, nested-kind collections and wrong-arity function literals; a case is non-trivial when its input is distinct")
     ctx.cov["trusted_base"] = ["Coq 8.16.1 kernel + vm_compute", "no axioms (Print Assumptions: closed under the global context)",
                                "implrun bif-matrix driver + the add-only export pkg/dsl/cst/zz_verif_c18.go (invokes table rows as the callsite nodes do)",
                                "instrumented scratch copy: os.Exit( of Miller's packages textually redirected to pkg/verifexit (hook: observe the exit, keep the process)",
                                "python harness; classification of runs by exit status / stderr patterns / wall-clock and output caps"]
     ctx.assumptions = ["argument kinds are covered by representatives (37), not by all values: a panic that needs a specific value outside them is not seen by part 1",
                        "hang = no progress for 4 s inside one call (in-process) / 8-25 s wall clock (mlr runs)",
-                       "readers other than DKVP/NIDX/TSV are not modelled in Coq here (C01/C02 hold those models); they are covered by the mutation harness only",
+                       "readers modelled in Coq here: DKVP, NIDX, TSV, CSV, CSV-lite, PPRINT (non-barred), XTAB with the options named in ModelReaders.v; JSON, YAML, markdown, DKVPX, USV/ASV, DCF, recutils, barred PPRINT, regex separators, comment handling are covered by the mutation harness only",
+                       "CSV error precedence (a reported quote error wins over an earlier length mismatch) is modelled for inputs within one reader batch (500 records)",
+                       "a DSL program that does not terminate (unbounded recursion) is the user's: the wall-clock cap is its expected outcome; only a Go fatal error would be a violation",
                        "the DSL front end is exercised, not modelled"]
     exe = build_instrumented(ctx)
     SANDBOX["dir"] = tempfile.mkdtemp(prefix="verif-c18-cwd.")
@@ -1085,20 +1474,34 @@ def run(ctx):
 
 
 def run_parts(ctx, exe):
-    mats = gen_bif_table(ctx, exe)
+    # VERIF_C18_ONLY=bif,line,classified,reader,special,dsl,stress runs a subset (development aid; the registered command runs all)
+    only = set(filter(None, os.environ.get("VERIF_C18_ONLY", "").split(",")))
+    want = lambda p: not only or p in only
     forbidden_gate(ctx, ["Base", "C18"])
-    ok, why = check_props(ctx, "C18/Props.v", ["C18/TableProofs.vo", "C18/Harness.vo", "C18/Proofs.vo"])
-    by_class = bif_oracle(ctx, mats)
-    if not ok:
-        # a proof obligation broke: the oracle above has reported the failing tuples if the table is the reason
-        if not (by_class and isinstance(why, dict) and "TableProofs" in json.dumps(why)):
-            ctx.violation({"broken": why}, found_input=False)
-        elif not ctx.violations and not ctx.known_reported:
-            ctx.violation({"broken": why}, found_input=False)
-    line_reader_correspondence(ctx, exe)
-    reader_part(ctx, exe)
-    special_inputs(ctx)
-    dsl_part(ctx, exe)
+    if want("bif"):
+        mats = gen_bif_table(ctx, exe)
+        ok, why = check_props(ctx, "C18/Props.v", ["C18/TableProofs.vo", "C18/Harness.vo", "C18/Proofs.vo", "C18/ProofsReaders.vo"])
+        by_class = bif_oracle(ctx, mats)
+        if not ok:
+            # a proof obligation broke: the oracle above has reported the failing tuples if the table is the reason
+            if not (by_class and isinstance(why, dict) and "TableProofs" in json.dumps(why)):
+                ctx.violation({"broken": why}, found_input=False)
+            elif not ctx.violations and not ctx.known_reported:
+                ctx.violation({"broken": why}, found_input=False)
+    else:
+        coq_make(["C18/Harness.vo", "C18/ProofsReaders.vo"])
+    if want("line"):
+        line_reader_correspondence(ctx, exe)
+    if want("classified"):
+        classified_reader_correspondence(ctx, exe)
+    if want("reader"):
+        reader_part(ctx, exe)
+    if want("special"):
+        special_inputs(ctx)
+    if want("dsl"):
+        dsl_part(ctx, exe)
+    if want("stress"):
+        stress_part(ctx)
 
 
 def replay(ctx, path):
